@@ -252,6 +252,12 @@ func (g *docGen) genSections() map[string]json.RawMessage {
 	for i := range bg.Blacklist {
 		bg.Blacklist[i] = gethCommon.BigToAddress(g.r.BigBits(150)).Hex() // canonical (EIP-55) spelling
 	}
+	// the list may hold strings that are not addresses (MsgSetBlacklist accepts any string), stored as they are
+	for _, odd := range []string{"", "vitalik.eth", g.pick(g.addrs), "0x" + strings.Repeat("a", 39), "0x" + strings.Repeat("b", 41)} {
+		if g.r.Chance(1, 2) {
+			bg.Blacklist = append(bg.Blacklist, odd)
+		}
+	}
 	bg.Blacklist = uniqBy(bg.Blacklist, func(s string) string { return s })
 	out["ethbridge"] = cdc.MustMarshalJSON(&bg)
 
